@@ -150,6 +150,23 @@ def sym_add(l: Any, r: Any, sign: int = 1) -> Any:
     return UNKNOWN
 
 
+class GenList(list):
+    """the values a generator object still has to produce.  Generator calls and generator expressions are evaluated eagerly, but the
+    object stays one-shot as in Python: a for loop / comprehension over it takes what is left, and a second pass over the same
+    object finds nothing (a generator kept in a table and iterated on every round of a fixpoint is empty from the second round on)"""
+    spent = False
+
+
+def _take(it):
+    """what an iteration over 'it' sees; a generator object is used up by it"""
+    if isinstance(it, GenList):
+        if it.spent:
+            return []
+        it.spent = True
+        return list(it)
+    return it
+
+
 class BoundOp:
     """a bound special method used as a value: d.__getitem__, xs.__contains__, d.get"""
     def __init__(self, kind: str, target: Any):
@@ -399,7 +416,7 @@ class Interp:
                 keep.append(e)
         del self.trace[start:]
         self.trace.extend(keep)
-        return out if ok else UNKNOWN
+        return GenList(out) if ok else UNKNOWN
 
     def block(self, stmts: list[ast.stmt], env: dict, depth: int) -> None:
         for st in stmts:
@@ -490,13 +507,18 @@ class Interp:
                 it = sorted(it, key=repr)
             if not isinstance(it, list) and self.strict_iter:
                 self.undecided.append(f"loop over a value the model does not follow: {norm(st.iter)[:50]}")
+            gen_ = it if isinstance(it, GenList) else None
+            it = _take(it)
             items = it if isinstance(it, list) else [Sym(f"elem:{norm(st.iter)[:30]}")]
-            for x in items:
+            for i_x, x in enumerate(items):
                 self.assign(st.target, x, env, st)
                 try:
                     self.block(st.body, env, depth)
                 except _Loop as l:
                     if l.kind == "break":
+                        if gen_ is not None:
+                            gen_[:] = items[i_x + 1:]       # a generator left by break keeps what it has not produced yet
+                            gen_.spent = False
                         break
                     continue
             else:
@@ -734,6 +756,18 @@ class Interp:
                         if "cached_property" in kinds_ and v_ is not UNKNOWN:
                             base.fields[e.attr] = v_
                         return v_
+            if isinstance(base, Obj) and e.attr not in base.fields and isinstance(e.ctx, ast.Load):
+                cis_ = [kk for kk in self.prog.classes.values() if (kk.fullname == base.full if base.full else kk.name == base.cls)]
+                if len(cis_) == 1:
+                    bm_ = self.prog.lookup_method(cis_[0], e.attr)
+                    if bm_ is not None and isinstance(bm_.node, ast.FunctionDef):
+                        from .frontend import decorators as _decos5
+                        if not ({d_.split(".")[-1] for d_ in _decos5(bm_.node)} & {"property", "cached_property"}):
+                            return BoundOp("objmethod", (base, e.attr))      # obj.method taken as a value (key=self.key)
+                    elif bm_ is None:
+                        cv_ = self._class_const(cis_[0], e.attr, depth)
+                        if isinstance(cv_, BoundOp):      # operator.attrgetter / itemgetter / methodcaller objects are not descriptors: no self is bound
+                            return cv_                                         # a class-level callable constant (attrgetter(..)) read through the instance
             if isinstance(base, Obj):
                 if e.attr not in base.fields and isinstance(e.ctx, ast.Load):
                     # a class-level default (expanding: bool = True) is what an instance without its own value shows
@@ -1042,13 +1076,15 @@ class Interp:
             if not isinstance(it, list):
                 ok[0] = False
                 return
-            for x in it:
+            for x in _take(it):
                 s2 = dict(sub)
                 self.assign(g.target, x, s2, e)
                 if all(self.truthy(self.ev(c, s2, depth)) for c in g.ifs):
                     rec(i + 1, s2)
 
         rec(0, dict(env))
+        if isinstance(e, ast.GeneratorExp) and ok[0]:
+            return GenList(out)
         return out if ok[0] else UNKNOWN
 
     def call(self, c: ast.Call, env: dict, depth: int) -> Any:
@@ -1545,6 +1581,10 @@ class Interp:
             if isinstance(recv_v, Obj):
                 cands = [ci for ci in self.prog.classes.values() if (ci.fullname == recv_v.full if recv_v.full else ci.name == recv_v.cls)]
                 target = self.prog.lookup_method(cands[0], nm) if len(cands) == 1 else None
+                if target is None and len(cands) == 1 and nm not in recv_v.fields and not kwargs:
+                    cv_ = self._class_const(cands[0], nm, depth)
+                    if isinstance(cv_, BoundOp):      # operator.attrgetter / itemgetter / methodcaller objects are not descriptors: no self is bound
+                        return self.apply(cv_, list(args), env, depth)      # self.aggregate_of(x): a class-level attrgetter / lambda called through the instance
                 if target is not None and isinstance(target.node, (ast.FunctionDef, ast.AsyncFunctionDef)) \
                         and (target not in self.fn_stack[-3:] or self.allow_recursion):
                     a = target.node.args
@@ -1783,6 +1823,15 @@ def _install():
         """call a callable value (closure, lambda, symbolic callable) on interpreted arguments"""
         if isinstance(fv, LocalFn):
             return self.call_local(fv, args, {}, depth, env)
+        if isinstance(fv, BoundOp) and fv.kind == "objmethod":
+            obj_, name_ = fv.target
+            env2 = {"__recv": obj_}
+            nodes_ = []
+            for i_, a_ in enumerate(args):
+                env2[f"__a{i_}"] = a_
+                nodes_.append(ast.Name(id=f"__a{i_}", ctx=ast.Load()))
+            fake = ast.Call(func=ast.Attribute(value=ast.Name(id="__recv", ctx=ast.Load()), attr=name_, ctx=ast.Load()), args=nodes_, keywords=[])
+            return self.ev(ast.fix_missing_locations(fake), env2, depth)
         if isinstance(fv, BoundOp) and len(args) == 1 and fv.kind == "methodcaller":
             name_, margs = fv.target[0], fv.target[1:]
             env2 = {"__recv": args[0]}
